@@ -241,6 +241,56 @@ def stdio_part(run, progs, base):
     return nranges
 
 
+def diag_part(run, base):
+    """(fixed, several documents) every diagnostic published for a document lies inside THAT document and covers the
+    identifier it is about: a long conftest.py with a dependency cycle and scope mismatches far down, and a short test
+    module, opened afterwards, that overrides the same names (its diagnostics are about its own lines)"""
+    from .c19 import subject
+    v = run.verdict
+    pad = "".join("# line %d\n" % i for i in range(18))
+    conf = ("import pytest\n" + pad + "\n@pytest.fixture\ndef alpha(beta):\n    return 1\n\n@pytest.fixture\ndef beta(alpha):\n    return 2\n\n"
+            "@pytest.fixture(scope=\"session\")\ndef gamma(delta):\n    return 3\n\n@pytest.fixture\ndef delta():\n    return 4\n")
+    over = ("import pytest\n\n@pytest.fixture\ndef alpha():\n    return 10\n\n@pytest.fixture\ndef beta():\n    return 20\n\n"
+            "def test_o(alpha, beta, gamma):\n    delta\n")
+    files = {"conftest.py": conf, "sub/test_override.py": over}
+    n = 0
+    for order in (["conftest.py", "sub/test_override.py"], ["sub/test_override.py", "conftest.py"]):
+        name = "diag-" + order[0].split("/")[-1]
+        root = os.path.join(base, name, "ws")
+        for p, t in files.items():
+            os.makedirs(os.path.dirname(os.path.join(root, p)), exist_ok=True)
+            with open(os.path.join(root, p), "w", encoding="utf-8", newline="") as f:
+                f.write(t)
+        c = None
+        try:
+            c = lsp.Client(core.SERVER_BIN, root)
+            got = {}
+            for p in order:
+                got[p] = c.open(p, files[p])
+            # once more, now that both are indexed
+            for p in order:
+                got[p] = c.change(p, files[p])
+            for p, diags in got.items():
+                lines = files[p].split("\n")
+                for d in diags or []:
+                    n += 1
+                    rg, code, msg_ = d["range"], d.get("code"), d.get("message", "")
+                    l, a, b = rg["start"]["line"], rg["start"]["character"], rg["end"]["character"]
+                    subj = subject(code, msg_)
+                    text = lines[l][a:b] if l < len(lines) and rg["end"]["line"] == l else None
+                    if subj is None or text != subj:
+                        msg = (f"stdio case {name}: diagnostic {code} published for {p} at {l}:{a}-{b} ({msg_!r}) does not cover "
+                               f"{subj!r} in that document ({len(lines)} lines; text there: {text!r})")
+                        v.violation(f"{name}-{p}-{l}", msg, f"# {msg}\n# documents opened in the order {order}\n"
+                                    + "".join("# %s | %s\n" % (q, ln) for q in files for ln in files[q].split("\n")))
+        except (lsp.ServerDied, lsp.Timeout) as e:
+            v.violation(name, f"stdio case {name}: server died or hung: {e}", f"# server died or hung: {e}\n")
+        finally:
+            if c is not None:
+                c.shutdown()
+    return n
+
+
 def run(tier, seed):
     r = Run(PROP, MODULE, THEOREMS, tier, seed, need_server=True)
     if not r.prepare():
@@ -317,6 +367,7 @@ def run(tier, seed):
     import shutil
     shutil.rmtree(base, ignore_errors=True)
     r.stats["stdio_ranges_checked"] = stdio_part(r, progs[:nstdio], base)
+    r.stats["diagnostics_checked_against_their_document"] = diag_part(r, base)
     shutil.rmtree(base, ignore_errors=True)
     return r.finish(RULE)
 
